@@ -70,7 +70,7 @@ def verifySignatureC (k : PubKey) (alg : Cbor) (sig : Option Cbor) (data : Bytes
     match sig with
     | some (.bytes b) => do
       let r ← sigVerifyM k s b data
-      liftE (sigResult r onInvalid)
+      liftE (sigResult (sigSeen s r) onInvalid)
     | _ => throw (nonlibErr "TypeError" "verify_signature.sig-type")
 
 /-- Python `a != b` between the key's alg and the statement's alg (scalars only) -/
